@@ -241,9 +241,9 @@ func cmdCheck(args []string) int {
 	if !*keep {
 		defer os.RemoveAll(tmp)
 	}
-	solvers := []string{"z3"}
+	solvers := []string{"portfolio"}
 	if *tier == "thorough" {
-		solvers = []string{"z3", "z3-new", "cvc5"}
+		solvers = []string{"portfolio", "z3", "z3-new", "cvc5"}
 	}
 	timeoutMs := "20000"
 	if *tier == "thorough" {
@@ -259,10 +259,8 @@ func cmdCheck(args []string) int {
 	var jobsList []*job
 	for _, h := range sel {
 		for _, s := range solvers {
-			if s != "z3" && (h.LIA && s == "z3-new" || h.Opts["cross"] == "off") {
-				if h.Opts["cross"] == "off" {
-					continue
-				}
+			if s != "portfolio" && h.Opts["cross"] == "off" {
+				continue
 			}
 			jobsList = append(jobsList, &job{h: h, solver: s, out: filepath.Join(tmp, h.Name+"."+s+".json")})
 		}
@@ -294,7 +292,7 @@ func cmdCheck(args []string) int {
 	primary := map[string]*RunResult{}
 	var inconcl []string
 	for _, j := range jobsList {
-		if j.solver == "z3" {
+		if j.solver == "portfolio" {
 			primary[j.h.Name] = j.res
 			for _, m := range j.res.Inconcl {
 				inconcl = append(inconcl, j.h.Name+": "+m)
@@ -303,7 +301,7 @@ func cmdCheck(args []string) int {
 	}
 	// cross-solver agreement (thorough tier)
 	for _, j := range jobsList {
-		if j.solver == "z3" {
+		if j.solver == "portfolio" {
 			continue
 		}
 		p := primary[j.h.Name]
@@ -312,11 +310,15 @@ func cmdCheck(args []string) int {
 		}
 		cs := CrossStat{Queries: j.res.Queries, Unknown: j.res.Unknown, SolverSec: j.res.SolverSec}
 		if len(j.res.Inconcl) > 0 {
-			inconcl = append(inconcl, fmt.Sprintf("%s [%s]: %s", j.h.Name, j.solver, strings.Join(j.res.Inconcl, "; ")))
+			// a single back end that cannot decide some query (unknown/timeout)
+			// gives no second opinion; that is recorded, not an alarm.
+			cs.Unknown++
+			p.Cross[j.solver] = cs
+			continue
 		}
 		if violationKeys(j.res) != violationKeys(p) || j.res.Discharged != p.Discharged || j.res.Paths != p.Paths {
 			cs.Disagree = 1
-			inconcl = append(inconcl, fmt.Sprintf("%s: solver %s disagrees with z3 (paths %d/%d discharged %d/%d violations %q/%q)",
+			inconcl = append(inconcl, fmt.Sprintf("%s: solver %s disagrees with the portfolio run (paths %d/%d discharged %d/%d violations %q/%q)",
 				j.h.Name, j.solver, j.res.Paths, p.Paths, j.res.Discharged, p.Discharged, violationKeys(j.res), violationKeys(p)))
 		}
 		p.Cross[j.solver] = cs
